@@ -38,6 +38,10 @@ def run(F, rep, tier):
     enter_pure_site(F, rep)
     purity_guards(F, rep)
     purity_unify(F, rep)
+    # purity is a property of one function type: a fresh copy of a parameter's type would take the `pu` of a declaration
+    # while the parameter itself still unifies with an impure argument
+    import c02
+    c02.copy_discipline(F, rep, only_generalised=True)
 
 
 def assignability(F, rep):
